@@ -186,15 +186,16 @@ theorem handles_fit_int (sc : Scripts) (cmds : List Cmd) (hb : (runCmds sc World
 /-- a script table used by the examples: the callback of (o1, "a") schedules "b" into the slot being swept,
     removes "c" and raises an error -/
 def exScripts : Scripts := fun o tag =>
-  if o = 1 ∧ tag = "a" then [.co 1 32 "b", .rmh "c", .fnm 2, .info, .err] else []
+  if o = 1 ∧ tag = "a" then [.co 1 32 "b" true, .rmh "c", .fnm 2, .info, .err] else []
 
 def exCmds : List Cmd :=
-  [.op 1 (.co 0 1 "a"), .op 1 (.co 2 5 "c"), .op 2 (.co 2 70 "d"), .op 2 (.dest 2), .adv 3, .sweep,
+  [.op 1 (.co 0 1 "a" false), .op 1 (.co 2 5 "c" true), .op 2 (.co 2 70 "d" true), .op 2 (.dest 2), .adv 3, .sweep,
    .op 1 (.fh "b"), .adv 40, .sweep, .adv 100, .sweep]
 
-/-- the example history is non-trivial: 2 fires (a, b), a removal from inside a callback, an error,
-    a destructed owner's entry dropped -/
-example : (events (runCmds exScripts World.init exCmds)).length = 18 := by decide
+/-- the example history is non-trivial: 2 fires (a, b: a function-pointer call_out scheduled from inside a callback
+    into the slot being swept), a removal from inside a callback, an error, a destructed owner's function-pointer
+    call_out dropped with the "owner destructed" error -/
+example : (events (runCmds exScripts World.init exCmds)).length = 19 := by decide
 
 example : (events (runCmds exScripts World.init exCmds)).filter (fun e => match e with | .fire .. => true | _ => false)
     = [.fire 3 1 0 "a", .fire 43 1 1 "b"] := by decide
@@ -203,10 +204,10 @@ example : (events (runCmds exScripts World.init exCmds)).filter (fun e => match 
 example : (runCmds exScripts World.init exCmds).unique < 2 ^ 31 / N := by decide
 
 /-- the oracle is not vacuous: it rejects a late fire, a repeated fire, a wrong answer, a missed call_out -/
-example : judgeEv [.co 0 1 0 5 "a" 37, .tickbegin 9, .fire 9 1 0 "a", .fire 9 1 0 "a", .tickend 9] ≠ [] := by decide
-example : judgeEv [.co 0 1 0 5 "a" 37, .tickbegin 4, .fire 4 1 0 "a", .tickend 4] ≠ [] := by decide
-example : judgeEv [.co 0 1 0 5 "a" 37, .fh 1 1 "a" 5] ≠ [] := by decide
-example : judgeEv [.co 0 1 0 5 "a" 37, .tickbegin 5, .tickend 5] ≠ [] := by decide
-example : judgeEv [.co 0 1 0 5 "a" 37, .rmh 2 1 "a" 3, .tickbegin 5, .fire 5 1 0 "a", .tickend 5] ≠ [] := by decide
+example : judgeEv [.co 0 1 0 5 "a" 37 false, .tickbegin 9, .fire 9 1 0 "a", .fire 9 1 0 "a", .tickend 9] ≠ [] := by decide
+example : judgeEv [.co 0 1 0 5 "a" 37 false, .tickbegin 4, .fire 4 1 0 "a", .tickend 4] ≠ [] := by decide
+example : judgeEv [.co 0 1 0 5 "a" 37 false, .fh 1 1 "a" 5] ≠ [] := by decide
+example : judgeEv [.co 0 1 0 5 "a" 37 false, .tickbegin 5, .tickend 5] ≠ [] := by decide
+example : judgeEv [.co 0 1 0 5 "a" 37 false, .rmh 2 1 "a" 3, .tickbegin 5, .fire 5 1 0 "a", .tickend 5] ≠ [] := by decide
 
 end NV.C10
